@@ -43,6 +43,18 @@ structure Consts where
   cbcBudgetsPadding : Bool
 deriving Repr
 
+/-- The constants of the code in the tree: `maxPayloadSizeForWrite` falls back to a path MTU of 1400
+when `Config.PMTU ≤ 0`, and its CBC arm budgets the padding (repair of F9).  They are NOT read from
+text-matching facts: `Gotlcp.Tie.RecordSize.Dtlcp` proves, for all inputs, that the functions
+TRANSLATED from dtlcp/conn.go on every run (`halfConn.explicitNonceLen`,
+`Conn.maxPayloadSizeForWrite`) compute exactly the model instantiated with these values, so a
+semantic change of those functions breaks that proof while a renaming or an equivalent
+re-arrangement does not.  `recordHeaderLen` and `maxPlaintext` are the package constants of those
+names (evaluated by the extractor, not matched as text). -/
+def treeConsts (recordHeaderLen maxPlaintext : Nat) : Consts :=
+  { defaultPmtu := 1400, recordHeaderLen := recordHeaderLen, maxPlaintext := maxPlaintext,
+    cbcBudgetsPadding := true }
+
 /-- the value of `maxPayload` before the two clamps (an `Int`: it can be negative) -/
 def rawBudget (k : Consts) (pmtu : Int) (c : Cipher) : Int :=
   let pmtu : Int := if pmtu ≤ 0 then k.defaultPmtu else pmtu
